@@ -18,6 +18,7 @@ package main
 //   x               kill the process now (ends the life)
 
 import (
+	"bytes"
 	"bufio"
 	"context"
 	"database/sql"
@@ -230,7 +231,7 @@ func snapWorker(args []string) error {
 		}
 		al.line(map[string]any{"ev": "ack", "k": "w", "pages": pg, "n": opn, "ok": ok})
 	}
-	doLoad := func(bad bool) {
+	doLoad := func(bad, boot bool) {
 		opn++
 		p := filepath.Join(*dir, "..", fmt.Sprintf("load-%d.sqlite", opn))
 		if err := makeLoadFile(p, int64(10*opn)); err != nil {
@@ -250,7 +251,13 @@ func snapWorker(args []string) error {
 			kind = "LB"
 		}
 		al.line(map[string]any{"ev": "inv", "k": kind, "pages": []int{}, "n": opn})
-		err := s.Load(context.Background(), &proto.LoadRequest{Data: b})
+		var err error
+		if boot {
+			// Store.ReadFrom ("boot"): the same replacement of the database, not through the log
+			_, err = s.ReadFrom(bytes.NewReader(b))
+		} else {
+			err = s.Load(context.Background(), &proto.LoadRequest{Data: b})
+		}
 		es := ""
 		if err != nil {
 			es = err.Error()
@@ -272,10 +279,13 @@ func snapWorker(args []string) error {
 			case strings.HasPrefix(op, "w:"):
 				doWrite(op[2:])
 			case op == "L":
-				doLoad(false)
+				doLoad(false, false)
 				state("load")
+			case op == "B":
+				doLoad(false, true)
+				state("boot")
 			case op == "LB":
-				doLoad(true)
+				doLoad(true, false)
 				state("badload")
 			case op == "s" || op == "sn":
 				if op == "sn" {
